@@ -333,7 +333,7 @@ type c09Exp struct {
 type c09Step struct {
 	Exp   c09Exp          `json:"exp"`
 	Skip  []string        `json:"skip"`
-	Pre   bool            `json:"pre"` // deviation preinc-missing-index applies to this step's result
+	Pre   map[string]bool `json:"pre"` // per semantics (I, g0, g1): deviation preinc-missing-index applies to this step's result
 	Dev   json.RawMessage `json:"dev"` // {} of g0/g1 -> c09Exp, or [] when empty
 	Taint struct {
 		G0 bool `json:"g0"`
@@ -502,7 +502,7 @@ func c09Match(v *c09Vec, sem string, o c09Obs, arrayRoot bool, pre, wild *bool) 
 			}
 			exp := c09FromCompact(e.Res)
 			if g := c09ParsePrint(got); !c09Equal(exp, g, false) {
-				if pre != nil && st.Pre && g.K == "null" {
+				if pre != nil && st.Pre[sem] && g.K == "null" {
 					*pre = true // explained by preinc-missing-index
 				} else {
 					return false, fmt.Sprintf("step %d: result: expected %s, got %s", i+1, exp, g)
@@ -578,7 +578,7 @@ func (s *c09Stats) tagVec(v *c09Vec) {
 			s.tags["dev:"+d+":"+e.St]++
 		}
 	}
-	if last.Pre {
+	if last.Pre["I"] || last.Pre["g0"] || last.Pre["g1"] {
 		s.tags["dev:preinc-missing-index"]++
 	}
 	if len(last.Skip) > 0 {
